@@ -31,6 +31,12 @@ class MapBase:
     def __init__(self, has, get, name="base"):
         self.has, self.get, self.name = has, get, name
 
+    def key(self, k):
+        """z3 term of a key this mapping may contain, else None"""
+        if isinstance(k, (int, SymInt)) and not isinstance(k, bool):
+            return zint(k)
+        return None
+
 
 class PDict:
     def __init__(self, pairs=(), base=None):
@@ -45,9 +51,10 @@ class PDict:
             if _keq(k, ek):
                 return v if op == "set" else _MISSING
         if self.base is not None:
-            if not isinstance(k, (int, SymInt)):
+            zk = self.base.key(k)
+            if zk is None:
                 return _MISSING
-            if core.CUR.branch(self.base.has(zint(k))):
+            if core.CUR.branch(self.base.has(zk)):
                 return self.base.get(k)
         return _MISSING
 
@@ -146,6 +153,8 @@ class PDict:
         return [k for k, _ in self._concrete_items()]
 
     def values(self):
+        if self.base is not None:
+            return SymItems(self, "values")
         return [v for _, v in self._concrete_items()]
 
     def __iter__(self):
@@ -203,6 +212,10 @@ class PList:
         self.n = n                  # int | SymInt : remaining length of the base part
         self.base = base            # i (int|SymInt) -> value
         self.items = list(items)
+        self.writes = []            # (index, value) assignments to the base part, oldest first
+
+    def __setitem__(self, i, v):
+        self.writes.append((i, v))
 
     def append(self, x):
         self.items.append(x)
@@ -235,20 +248,30 @@ class PList:
             return self.n > 0
         return core.CUR.branch(zint(self.n) > 0)
 
+    def _concrete(self):
+        out = [self.base(i) for i in range(self.n)]
+        for i, v in self.writes:
+            if not isinstance(i, int):
+                raise Unsupported("read of a list after a write at a symbolic index")
+            out[i] = v
+        return out + list(self.items)
+
     def __iter__(self):
         if isinstance(self.n, int):
-            return iter([self.base(i) for i in range(self.n)] + list(self.items))
+            return iter(self._concrete())
         raise Unsupported("iteration over a symbolic-length list (needs a loop contract)")
 
     def __getitem__(self, i):
         if isinstance(i, int) and i < 0 and -i <= len(self.items):
             return self.items[i]
         if isinstance(self.n, int) and isinstance(i, int):
-            return ([self.base(k) for k in range(self.n)] + self.items)[i]
+            return self._concrete()[i]
         raise Unsupported("PList index")
 
     def __copy__(self):
-        return PList(self.n, self.base, self.items)
+        c = PList(self.n, self.base, self.items)
+        c.writes = list(self.writes)
+        return c
 
     def __repr__(self):
         return "PList(n=%s, +%d)" % (self.n, len(self.items))
@@ -271,11 +294,11 @@ def bytes_join(sep, parts):
 class SymItems:
     """`d.items()` of a dict with arbitrary (symbolic) content: only consumable by a comprehension model"""
 
-    def __init__(self, d):
-        self.d = d
+    def __init__(self, d, what="items"):
+        self.d, self.what = d, what
 
     def __iter__(self):
-        raise Unsupported("iteration over the items of a dict with symbolic initial content (needs a loop contract)")
+        raise Unsupported("iteration over the %s of a dict with symbolic initial content (needs a loop contract)" % self.what)
 
 
 class CompDict:
